@@ -21,8 +21,8 @@ CHECKS = {
                 text="(a) every update function of the repository models and every function of <= 3 inputs: z3 decides over all states that the emitted implicants equal f&!x / !f&x; (b) restrict_petrinet_to_subspace lifted over the generic net: all nets, subspaces and states; (c) percolate_network per model and node space: remaining variables and functions agree with the original on every state of the space."),
     "C02": dict(engine="E-CAB", category="model_checking", design_ref="§3.2, §6 C02", technique=T_CAB,
                 text="Concolic execution of the real expand_bfs/expand_dfs over a symbolic truth table: z3 decides, for every path class, that the produced diagram equals the hierarchy of percolated trap spaces for all networks of the class; exhaustive for all 2-variable networks, time-boxed (quick) / exhaustive (thorough) for all 3-variable networks."),
-    "C03": dict(engine="E-CAB", category="model_checking", design_ref="§3.2, §6 C03", technique=T_CAB,
-                text="Every completing strategy (bfs, dfs, minimal-space +-skip, attractor-seed, block with all flag combinations, source-SCC) and limited strategies completed by skipping, optionally after a plain prefix call with symbolic limits: z3 decides per path class that the expanded leaves are exactly the inclusion-minimal trap spaces. U2 exhaustive for single strategies; D3/B21 (quick) and U3/B22/CH4/S2C2 (thorough) time-boxed."),
+    "C03": dict(engine="E-CAB", category="model_checking", design_ref="§3.2, §6 C03", technique=T_CAB + "; per-model SMT validation on the published models (z3 over all subspaces of the validated Petri net: reported minimal trap spaces closed, minimal, none missing)",
+                text="Published models (5-321 variables): for every complete strategy run z3 decides exactly-the-minimal-trap-spaces over all subspaces (checks/models_tv.py). Small symbolic networks: Every completing strategy (bfs, dfs, minimal-space +-skip, attractor-seed, block with all flag combinations, source-SCC) and limited strategies completed by skipping, optionally after a plain prefix call with symbolic limits: z3 decides per path class that the expanded leaves are exactly the inclusion-minimal trap spaces. U2 exhaustive for single strategies; D3/B21 (quick) and U3/B22/CH4/S2C2 (thorough) time-boxed."),
     "C04": dict(engine="E-CAB", category="model_checking", design_ref="§3.2, §6 C04", technique=T_CAB,
                 text="Histories of plain expansion calls with symbolic start nodes, limits and targets; after every call the partial-diagram invariant is decided for the whole path class, and the continued full expansion is decided against the C02 hierarchy and compared with a fresh diagram."),
     "C06": dict(engine="E-CAB", category="model_checking", design_ref="§6 C06", technique=T_CAB,
